@@ -97,6 +97,7 @@ def main():
     prop, tier = args[0], args[1]
     src = "/repo"
     replay = None
+    tdir = None
     i = 2
     while i < len(args):
         if args[i] == "--src":
@@ -105,16 +106,20 @@ def main():
         elif args[i] == "--replay":
             replay = args[i + 1]
             i += 2
+        elif args[i] == "--target-dir":
+            tdir = args[i + 1]
+            i += 2
         else:
             i += 1
     t0 = time.time()
     seed = int(os.environ.get("VERIF_SEED", "0") or 0)
-    evid_path = os.path.join(VERIF, "evidence", prop + ".json")
+    evid_dir = os.environ.get("VERIF_EVIDENCE_DIR") or os.path.join(VERIF, "evidence")
+    evid_path = os.path.join(evid_dir, prop + ".json")
     os.makedirs(os.path.dirname(evid_path), exist_ok=True)
-    rdir = os.path.join(VERIF, "replay")
+    rdir = os.environ.get("VERIF_REPLAY_DIR") or os.path.join(VERIF, "replay")
     os.makedirs(rdir, exist_ok=True)
     try:
-        cx, mod = evaluate(prop, src, tier)
+        cx, mod = evaluate(prop, src, tier, target_dir=tdir)
     except (ExtractError, Exception) as e:  # fail closed
         traceback.print_exc()
         rp = os.path.join(rdir, "%s-harness-error.json" % prop)
